@@ -16,8 +16,8 @@ use std::path::{Path, PathBuf};
 use std::sync::Arc;
 use vh_common::{Case, PanicInfo, Rng, Run, trap};
 use wow_cdbc::{
-    DbcParser, DbcWriter, FieldType, LazyDbcParser, MmapDbcFile, Record, RecordSet, Schema, SchemaField, StringBlock, StringRef, Value,
-    parse_records_parallel,
+    CachedStringBlock, DbcParser, DbcVersion, DbcWriter, FieldType, LazyDbcParser, MmapDbcFile, Record, RecordSet, Schema, SchemaField, StringBlock,
+    StringRef, Value, parse_records_parallel,
 };
 
 // ------------------------------------------------------------------ model ----
@@ -162,6 +162,10 @@ struct Meta {
     layout: &'static str,
     rewrite_src: &'static str,
     explicit_writer_schema: bool,
+    /// how the schema's key field is declared: by index, set_key_field(name), try_set_key_field(name)
+    key_by: &'static str,
+    /// the versioned container the same table is wrapped in for the container leg
+    container: &'static str,
 }
 
 impl Meta {
@@ -188,6 +192,7 @@ impl Meta {
             "string_pool": self.pool, "string_block_layout": self.layout,
             "record_size": t.record_size(), "columns": t.column_count(),
             "rewrite_source": self.rewrite_src, "writer_schema_explicit": self.explicit_writer_schema,
+            "key_declared_by": self.key_by, "container": self.container,
         })
     }
 }
@@ -385,7 +390,9 @@ fn gen_table(rng: &mut Rng, idx: u64) -> (Table, Meta) {
     }
     let layout = ["dedup", "shuffled+unreferenced", "duplicated", "suffix-shared", "no-leading-nul"][((idx / 3) % 5) as usize];
     let rewrite_src = ["eager", "parallel", "mmap"][((idx / 2) % 3) as usize];
-    let meta = Meta { n, keypos, keyty, keymode, pool: pool.len(), layout, rewrite_src, explicit_writer_schema: rng.bool() };
+    let key_by = ["index", "name", "try-name"][((idx / 5) % 3) as usize];
+    let container = CONTAINERS[((idx / 7) % 4) as usize];
+    let meta = Meta { n, keypos, keyty, keymode, pool: pool.len(), layout, rewrite_src, explicit_writer_schema: rng.bool(), key_by, container };
     (Table { fields, key, recs }, meta)
 }
 
@@ -550,19 +557,43 @@ fn encode(t: &Table, layout: &str, rng: &mut Rng) -> Encoded {
     Encoded { bytes, sb_len: sb.len(), used, refs }
 }
 
-fn lib_schema(t: &Table) -> Schema {
+/// Field names of the schema handed to the library: unique (`f0, f1, ...`) or, for the by-name leg, repeating (`f0, f1, f2, f0, ...`).
+fn field_names(t: &Table, duplicate: bool) -> Vec<String> {
+    (0..t.fields.len()).map(|j| format!("f{}", if duplicate { j % 3 } else { j })).collect()
+}
+
+/// The library schema of the table. `key_by`: "index" = set_key_field_index, "name" = set_key_field(name),
+/// "try-name" = try_set_key_field(name). Err = the by-name call refused / panicked on a name the schema contains.
+fn lib_schema(t: &Table, names: &[String], key_by: &str) -> Result<Schema, String> {
     let mut s = Schema::new("T");
     for (j, f) in t.fields.iter().enumerate() {
-        let name = format!("f{j}");
+        let name = names[j].clone();
         match f.arr {
             Some(n) => s.add_field(SchemaField::new_array(name, f.ty.lib(), n)),
             None => s.add_field(SchemaField::new(name, f.ty.lib())),
         };
     }
     if let Some(k) = t.key {
-        s.set_key_field_index(k);
+        match key_by {
+            "name" => {
+                trap(|| {
+                    s.set_key_field(&names[k]);
+                })
+                .map_err(|p| format!("set_key_field panicked: {}", p.msg))?;
+            }
+            "try-name" => {
+                match trap(|| s.try_set_key_field(&names[k]).map(|_| ())) {
+                    Ok(Ok(())) => {}
+                    Ok(Err(e)) => return Err(format!("try_set_key_field refused: {e}")),
+                    Err(p) => return Err(format!("try_set_key_field panicked: {}", p.msg)),
+                };
+            }
+            _ => {
+                s.set_key_field_index(k);
+            }
+        }
     }
-    s
+    Ok(s)
 }
 
 // ------------------------------------------------------------- projection ----
@@ -571,6 +602,7 @@ fn lib_schema(t: &Table) -> Schema {
 enum Src<'a> {
     Set(&'a RecordSet),
     Block(&'a StringBlock),
+    Cached(&'a CachedStringBlock),
 }
 
 impl Src<'_> {
@@ -578,6 +610,7 @@ impl Src<'_> {
         match self {
             Src::Set(rs) => rs.get_string(r),
             Src::Block(b) => b.get_string(r),
+            Src::Cached(b) => b.get_string(r),
         }
     }
 }
@@ -1053,7 +1086,359 @@ fn check_writer_histories(c: &mut Case, t: &Table, m: &Meta, schema: &Schema, sr
     }
 }
 
-fn check_table(c: &mut Case, t: &Table, m: &Meta, rng: &mut Rng, rs_lane: &mut Rng, file: &Path) {
+// --------------------------------------------------------------- round-8 legs ----
+
+/// Versioned containers the same table is wrapped in (header layouts from the published format: WDB2 = the WDBC fields followed by
+/// table hash, build, timestamp and - for builds after 12880 - min id, max id, locale, copy-table size, then (max id != 0) an index
+/// array of 4 bytes and a string-length array of 2 bytes per id in min..=max; WDB5 = 48-byte header). Records and string block are
+/// the bytes of the WDBC file. For WDB5 the records follow the header directly, as this library models it (the field-structure
+/// block of real WDB5 files is not modelled by the crate and not demanded here).
+const CONTAINERS: [&str; 4] = ["wdb2-basic", "wdb2-extended", "wdb2-extended+index", "wdb5"];
+
+/// Returns (file bytes, offset of the record area).
+fn wrap_container(kind: &str, t: &Table, body: &[u8], sb_len: usize, rng: &mut Rng) -> (Vec<u8>, usize) {
+    let mut b: Vec<u8> = Vec::with_capacity(64 + body.len());
+    let u = |b: &mut Vec<u8>, x: u32| b.extend_from_slice(&x.to_le_bytes());
+    b.extend_from_slice(if kind == "wdb5" { b"WDB5" } else { b"WDB2" });
+    u(&mut b, t.recs.len() as u32);
+    u(&mut b, t.column_count() as u32);
+    u(&mut b, t.record_size() as u32);
+    u(&mut b, sb_len as u32);
+    u(&mut b, rng.next_u32() | 1); // table hash
+    match kind {
+        "wdb5" => {
+            u(&mut b, rng.next_u32() | 1); // layout hash
+            u(&mut b, 1); // min id
+            u(&mut b, t.recs.len() as u32); // max id
+            u(&mut b, 0xFFFF_FFFF); // locale
+            u(&mut b, 0); // copy table size
+            b.extend_from_slice(&0u16.to_le_bytes()); // flags
+            b.extend_from_slice(&0u16.to_le_bytes()); // id index
+        }
+        "wdb2-basic" => {
+            u(&mut b, *rng.pick(&[11927u32, 12880, 12319])); // build
+            u(&mut b, rng.next_u32() | 0x0101_0101); // timestamp
+        }
+        _ => {
+            u(&mut b, *rng.pick(&[12881u32, 13623, 15595, 18414])); // build
+            u(&mut b, rng.next_u32() | 0x0101_0101); // timestamp
+            let (min, max) = if kind == "wdb2-extended" {
+                (0u32, 0u32)
+            } else {
+                let min = 1 + rng.below(100) as u32;
+                (min, min + rng.below(200) as u32)
+            };
+            u(&mut b, min);
+            u(&mut b, max);
+            u(&mut b, 0xFFFF_FFFF); // locale
+            u(&mut b, 0); // copy table size
+            if max != 0 {
+                let d = (max - min + 1) as usize;
+                for k in 0..d {
+                    u(&mut b, 0x4949_0000 | k as u32); // index array
+                }
+                for k in 0..d {
+                    b.extend_from_slice(&(0x5300u16 | (k as u16 & 0xFF)).to_le_bytes()); // string-length array
+                }
+            }
+        }
+    }
+    let off = b.len();
+    b.extend_from_slice(body);
+    (b, off)
+}
+
+/// One verdict per (path, container): the first difference is reported.
+fn cmp_container(c: &mut Case, kind: &str, path: &str, t: &Table, got: &[Vec<MV>]) -> bool {
+    c.count(&format!("container_path_vs_model|{kind}|{path}"), 1);
+    if got == &t.recs[..] {
+        c.count("container_records_compared", got.len() as u64);
+        return true;
+    }
+    let what = if got.len() != t.recs.len() {
+        format!("{} records instead of {}", got.len(), t.recs.len())
+    } else {
+        let ri = got.iter().zip(&t.recs).position(|(g, w)| g != w).unwrap_or(0);
+        let (g, w) = (&got[ri], &t.recs[ri]);
+        match g.iter().zip(w).position(|(a, b)| a != b) {
+            Some(fi) => format!("record {ri} field {fi} ({}) = {}, the table has {}", t.fields[fi].label(), g[fi].show(), w[fi].show()),
+            None => format!("record {ri} has {} values, the schema has {} fields", g.len(), w.len()),
+        }
+    };
+    c.violate(
+        format!("container-path-ne-model|{path}|{kind}"),
+        format!("{path} access to the table inside a {kind} container: {what}"),
+        json!({"container": kind, "path": path, "records": t.recs.len()}),
+    );
+    false
+}
+
+/// The table of the case inside a WDB2 / WDB5 container: DbcParser::parse must find records and string block behind the longer
+/// header, and the other access paths, handed the parser's data and header the way the crate's examples do, must agree.
+#[allow(clippy::too_many_arguments)]
+fn check_container(c: &mut Case, t: &Table, m: &Meta, enc: &Encoded, tail: usize, schema: &Schema, keymap: &BTreeMap<u32, Vec<usize>>, absent: &[u32], lane: &mut Rng, file: &Path) {
+    let kind = m.container;
+    let n = t.recs.len();
+    let (wb, rec_off) = wrap_container(kind, t, &enc.bytes[20..], enc.sb_len, lane);
+    let file_block = &wb[wb.len() - tail - enc.sb_len..wb.len() - tail];
+    c.count(&format!("container_files|{kind}"), 1);
+    c.count("container_file_bytes", wb.len() as u64);
+    let want_version = if kind == "wdb5" { DbcVersion::WDB5 } else { DbcVersion::WDB2 };
+    let mut it = Interner::default();
+    for s in &enc.used {
+        it.map.insert(s.clone(), ());
+    }
+    let p_eager = format!("eager@{kind}");
+    let Some(parser) = stage(c, &p_eager, "parse_bytes", "", trap(|| DbcParser::parse_bytes(&wb))) else { return };
+    if parser.version() != want_version {
+        c.violate(format!("container-version|eager|{kind}"), format!("DbcParser::version() = {:?} for a {kind} file", parser.version()), json!({}));
+    }
+    check_header(c, &p_eager, parser.header(), t, enc.sb_len);
+    let Some(parser) = stage(c, &p_eager, "with_schema", "", trap(|| parser.with_schema(schema.clone()))) else { return };
+    let Some(mut eager_rs) = stage(c, &p_eager, "parse_records", "", trap(|| parser.parse_records())) else { return };
+    let eager_ok;
+    {
+        let proj: Vec<Vec<MV>> = eager_rs.records().iter().map(|r| project(r, &Src::Set(&eager_rs), &mut it)).collect();
+        eager_ok = cmp_container(c, kind, "eager", t, &proj);
+    }
+    c.count("container_string_blocks_compared", 1);
+    if eager_rs.string_block().data() != file_block {
+        c.violate(
+            format!("container-string-block-ne-file|eager|{kind}"),
+            format!("RecordSet::string_block() of a {kind} file (records at offset {rec_off}) differs from the file's string block"),
+            json!({"container": kind}),
+        );
+    }
+    // lazy and parallel, handed the parser's data, header and schema (examples/comprehensive.rs)
+    let block = Arc::new(eager_rs.string_block().clone());
+    {
+        let lazy = LazyDbcParser::new(parser.data(), parser.header(), parser.schema(), Arc::clone(&block));
+        let r = trap(|| lazy.record_iterator().collect::<wow_cdbc::Result<Vec<Record>>>());
+        if let Some(recs) = stage(c, &format!("lazy-iter@{kind}"), "record_iterator", "", r) {
+            let proj: Vec<Vec<MV>> = recs.iter().map(|r| project(r, &Src::Block(lazy.string_block()), &mut it)).collect();
+            cmp_container(c, kind, "lazy-iter", t, &proj);
+        }
+        let mut order: Vec<u32> = (0..n as u32).collect();
+        lane.shuffle(&mut order);
+        let r = trap(|| {
+            let mut out: Vec<Option<Record>> = vec![None; n];
+            for &i in &order {
+                out[i as usize] = Some(lazy.get_record(i)?);
+            }
+            Ok(out.into_iter().map(|r| r.unwrap()).collect::<Vec<Record>>())
+        });
+        if let Some(recs) = stage(c, &format!("lazy-index@{kind}"), "get_record", "", r) {
+            let proj: Vec<Vec<MV>> = recs.iter().map(|r| project(r, &Src::Block(lazy.string_block()), &mut it)).collect();
+            cmp_container(c, kind, "lazy-index", t, &proj);
+        }
+    }
+    {
+        let r = trap(|| parse_records_parallel(parser.data(), parser.header(), parser.schema(), Arc::clone(&block)));
+        if let Some(rs) = stage(c, &format!("parallel@{kind}"), "parse_records_parallel", "", r) {
+            let proj: Vec<Vec<MV>> = rs.records().iter().map(|r| project(r, &Src::Set(&rs), &mut it)).collect();
+            cmp_container(c, kind, "parallel", t, &proj);
+        }
+    }
+    // memory-mapped
+    let f2 = file.with_extension("container.db2");
+    match std::fs::write(&f2, &wb) {
+        Err(e) => c.inconclusive(format!("cannot write scratch file: {e}")),
+        Ok(()) => {
+            let p_mmap = format!("mmap@{kind}");
+            if let Some(mm) = stage(c, &p_mmap, "open", "", trap(|| MmapDbcFile::open(&f2))) {
+                if mm.version() != want_version {
+                    c.violate(format!("container-version|mmap|{kind}"), format!("MmapDbcFile::version() = {:?} for a {kind} file", mm.version()), json!({}));
+                }
+                check_header(c, &p_mmap, mm.header(), t, enc.sb_len);
+                let r = trap(|| mm.parser_with_schema(schema.clone()).and_then(|p| p.parse_records()));
+                if let Some(rs) = stage(c, &p_mmap, "parser_with_schema+parse_records", "", r) {
+                    let proj: Vec<Vec<MV>> = rs.records().iter().map(|r| project(r, &Src::Set(&rs), &mut it)).collect();
+                    cmp_container(c, kind, "mmap", t, &proj);
+                }
+                if let Some(sb) = stage(c, &format!("mmap-string-block@{kind}"), "string_block", "", trap(|| mm.string_block())) {
+                    c.count("container_string_blocks_compared", 1);
+                    if sb.data() != file_block {
+                        c.violate(
+                            format!("container-string-block-ne-file|mmap|{kind}"),
+                            format!("MmapDbcFile::string_block() of a {kind} file (records at offset {rec_off}) differs from the file's string block"),
+                            json!({"container": kind}),
+                        );
+                    }
+                }
+            }
+            let _ = std::fs::remove_file(&f2);
+        }
+    }
+    // key lookups on the set read from the container (lookups on a set already known to differ would only repeat that finding)
+    if n <= 1000 && eager_ok {
+        check_keys(c, &p_eager, &mut eager_rs, t, m.keyty, keymap, absent);
+    }
+}
+
+/// Record::get_value_by_name against Record::get_value. With unique names the named value is the value at the field's index; with
+/// repeated names only "the value of a field carrying that name" is demanded. Unknown names and indices past the end yield nothing.
+fn check_by_name(c: &mut Case, path: &str, recs: &[Record], names: &[String], duplicate: bool) {
+    let kind = if duplicate { "duplicate-names" } else { "unique-names" };
+    let step = (recs.len() / 64).max(1);
+    for rec in recs.iter().step_by(step) {
+        c.count(&format!("by_name_records|{kind}"), 1);
+        if rec.len() != names.len() || rec.is_empty() != names.is_empty() {
+            c.violate(format!("by-name|{path}|len"), format!("{path}: Record::len() = {} for a schema of {} fields", rec.len(), names.len()), json!({}));
+            return;
+        }
+        for (j, name) in names.iter().enumerate() {
+            c.count(&format!("by_name_lookups|{kind}"), 1);
+            let Some(v) = rec.get_value_by_name(name) else {
+                c.violate(format!("by-name|{path}|{kind}|none"), format!("{path}: get_value_by_name({name:?}) found nothing although field {j} carries that name"), json!({"field": j}));
+                return;
+            };
+            let ok = if duplicate {
+                names.iter().enumerate().any(|(k, nm)| nm == name && rec.get_value(k).is_some_and(|w| std::ptr::eq(v, w)))
+            } else {
+                rec.get_value(j).is_some_and(|w| std::ptr::eq(v, w))
+            };
+            if !ok {
+                c.violate(format!("by-name|{path}|{kind}|other-field"), format!("{path}: get_value_by_name({name:?}) is not the value of a field of that name (asked for field {j})"), json!({"field": j}));
+                return;
+            }
+        }
+        if rec.get_value_by_name("no such field").is_some() || rec.get_value_by_name("").is_some() {
+            c.violate(format!("by-name|{path}|unknown-name-found"), format!("{path}: get_value_by_name returned a value for a name the schema does not contain"), json!({}));
+            return;
+        }
+        if rec.get_value(names.len()).is_some() {
+            c.violate(format!("by-name|{path}|index-past-end-found"), format!("{path}: get_value({}) returned a value", names.len()), json!({}));
+            return;
+        }
+    }
+}
+
+/// Schema-less access: without a schema every column is taken as a 32-bit word, which is only meaningful for tables whose columns
+/// are all 32 bits wide; such a table (the case's own, or its 32-bit columns) must come back as the little-endian words of the
+/// file on every path, and the words of string columns must resolve to the table's text.
+fn check_raw(c: &mut Case, t: &Table, enc: &Encoded, lane: &mut Rng, file: &Path) {
+    let cols: Vec<usize> = (0..t.fields.len()).filter(|&j| t.fields[j].ty.width() == 4).collect();
+    if cols.is_empty() {
+        c.count("raw_tables_skipped|no-32-bit-column", 1);
+        return;
+    }
+    let narrowed = cols.len() != t.fields.len();
+    let sub;
+    let sub_enc;
+    let (t, bytes, sb_len): (&Table, &[u8], usize) = if narrowed {
+        let take = t.recs.len().min(2000);
+        sub = Table { fields: cols.iter().map(|&j| t.fields[j].clone()).collect(), key: None, recs: t.recs[..take].iter().map(|r| cols.iter().map(|&j| r[j].clone()).collect()).collect() };
+        sub_enc = encode(&sub, "dedup", lane);
+        (&sub, &sub_enc.bytes[..], sub_enc.sb_len)
+    } else {
+        (t, &enc.bytes[..], enc.sb_len)
+    };
+    let n = t.recs.len();
+    let (rs_, ncol) = (t.record_size(), t.column_count());
+    c.count(&format!("raw_tables|{}", if narrowed { "32-bit-columns-of-the-table" } else { "whole-table" }), 1);
+    let words: Vec<Vec<u32>> = (0..n).map(|i| (0..ncol).map(|k| u32::from_le_bytes(bytes[20 + i * rs_ + 4 * k..][..4].try_into().unwrap())).collect()).collect();
+    let cmp = |c: &mut Case, path: &str, recs: &[Record]| {
+        c.count(&format!("raw_path_vs_file|{path}"), 1);
+        if recs.len() != n {
+            c.violate(format!("raw-ne-file|{path}|record-count"), format!("schema-less {path}: {} records, the file has {n}", recs.len()), json!({}));
+            return;
+        }
+        for (i, rec) in recs.iter().enumerate() {
+            let got: Option<Vec<u32>> = rec.values().iter().map(|v| if let Value::UInt32(x) = v { Some(*x) } else { None }).collect();
+            match got {
+                None => {
+                    c.violate(format!("raw-ne-file|{path}|not-a-32-bit-word"), format!("schema-less {path}: record {i} holds a value that is not a UInt32"), json!({"record": i}));
+                    return;
+                }
+                Some(g) if g != words[i] => {
+                    c.violate(format!("raw-ne-file|{path}|words"), format!("schema-less {path}: record {i} is not the {ncol} little-endian words of the file's record {i}"), json!({"record": i, "got": g.iter().take(8).collect::<Vec<_>>(), "want": words[i].iter().take(8).collect::<Vec<_>>()}));
+                    return;
+                }
+                _ => {}
+            }
+            if rec.schema().is_some() || rec.get_value_by_name("f0").is_some() {
+                c.violate(format!("by-name|raw-{path}|schema-less-found"), format!("schema-less {path}: a record claims a schema / answers a by-name lookup"), json!({}));
+                return;
+            }
+        }
+        c.count("raw_words_compared", (n * ncol) as u64);
+    };
+    // eager
+    let Some(parser) = stage(c, "raw-eager", "parse_bytes", "", trap(|| DbcParser::parse_bytes(bytes))) else { return };
+    let header = *parser.header();
+    let Some(rs) = stage(c, "raw-eager", "parse_records", "", trap(|| parser.parse_records())) else { return };
+    cmp(c, "eager", rs.records());
+    if rs.schema().is_some() || rs.get_record_by_key(1).is_some() || rs.len() != n {
+        c.violate("raw-ne-file|eager|set-claims-schema-or-key", "schema-less eager: the record set claims a schema / answers a key lookup / has another length", json!({}));
+    }
+    // string columns: the raw word is the reference
+    let mut col = 0usize;
+    for (j, f) in t.fields.iter().enumerate() {
+        if f.ty == Ty::Str {
+            for (i, rec) in t.recs.iter().enumerate().take(500) {
+                for e in 0..f.elems() {
+                    let want: &str = match &rec[j] {
+                        MV::Str(s) => s,
+                        MV::Arr(a) => match &a[e] {
+                            MV::Str(s) => s,
+                            _ => continue,
+                        },
+                        _ => continue,
+                    };
+                    c.count("raw_string_words_resolved", 1);
+                    let w = words[i][col + e];
+                    match rs.get_string(StringRef::new(w)) {
+                        Ok(s) if s == want => {}
+                        other => {
+                            c.violate("raw-ne-file|eager|string-word", format!("schema-less eager: the word of string field {j} in record {i} resolves to {:?}, the table has {want:?}", other.map(|s| s.chars().take(40).collect::<String>()).map_err(|e| ekind(&e))), json!({"record": i, "field": j}));
+                            return;
+                        }
+                    }
+                }
+            }
+        }
+        col += f.elems();
+    }
+    let block = Arc::new(rs.string_block().clone());
+    {
+        let lazy = LazyDbcParser::new(bytes, &header, None, Arc::clone(&block));
+        if let Some(recs) = stage(c, "raw-lazy-iter", "record_iterator", "", trap(|| lazy.record_iterator().collect::<wow_cdbc::Result<Vec<Record>>>())) {
+            cmp(c, "lazy-iter", &recs);
+        }
+        let mut order: Vec<u32> = (0..n as u32).collect();
+        lane.shuffle(&mut order);
+        let r = trap(|| {
+            let mut out: Vec<Option<Record>> = vec![None; n];
+            for &i in &order {
+                out[i as usize] = Some(lazy.get_record(i)?);
+            }
+            Ok(out.into_iter().map(|r| r.unwrap()).collect::<Vec<Record>>())
+        });
+        if let Some(recs) = stage(c, "raw-lazy-index", "get_record", "", r) {
+            cmp(c, "lazy-index", &recs);
+        }
+    }
+    if let Some(prs) = stage(c, "raw-parallel", "parse_records_parallel", "", trap(|| parse_records_parallel(bytes, &header, None, Arc::clone(&block)))) {
+        cmp(c, "parallel", prs.records());
+    }
+    let f2 = file.with_extension("raw.dbc");
+    match std::fs::write(&f2, bytes) {
+        Err(e) => c.inconclusive(format!("cannot write scratch file: {e}")),
+        Ok(()) => {
+            if let Some(mm) = stage(c, "raw-mmap", "open", "", trap(|| MmapDbcFile::open(&f2))) {
+                if let Some(mrs) = stage(c, "raw-mmap", "parser+parse_records", "", trap(|| mm.parser().parse_records())) {
+                    cmp(c, "mmap", mrs.records());
+                    if mrs.string_block().data() != &bytes[20 + n * rs_..20 + n * rs_ + sb_len] {
+                        c.violate("string-block-ne-file|raw-mmap", "schema-less mmap: RecordSet::string_block() differs from the file's string block", json!({}));
+                    }
+                }
+            }
+            let _ = std::fs::remove_file(&f2);
+        }
+    }
+}
+
+fn check_table(c: &mut Case, t: &Table, m: &Meta, rng: &mut Rng, rs_lane: &mut Rng, lane3: &mut Rng, quick: bool, file: &Path) {
     let mut enc = encode(t, m.layout, rng);
     // every fifth table lives in a file that goes on behind the string block (padding / appended bytes): the header says where
     // the table ends, and every access path has to take it from there
@@ -1149,7 +1534,43 @@ fn check_table(c: &mut Case, t: &Table, m: &Meta, rng: &mut Rng, rs_lane: &mut R
         absent.truncate(100);
     }
 
-    let schema = lib_schema(t);
+    // ---- the schema, its key declared by index or by name
+    let names = field_names(t, false);
+    c.count(&format!("schema_key_declared_by|{}", if t.key.is_some() { m.key_by } else { "no-key" }), 1);
+    let schema = match lib_schema(t, &names, m.key_by) {
+        Ok(s) => s,
+        Err(e) => {
+            c.violate(format!("schema-key-by-name|{}|refused-present-name", m.key_by), format!("declaring the key field by its name: {e}"), json!({"key_field_index": t.key}));
+            return;
+        }
+    };
+    if schema.key_field_index != t.key {
+        c.violate(
+            format!("schema-key-by-name|{}|wrong-index", m.key_by),
+            format!("key field declared as {:?} ({}): Schema::key_field_index = {:?}, the field is at {:?}", t.key.map(|k| &names[k]), m.key_by, schema.key_field_index, t.key),
+            json!({}),
+        );
+        return;
+    }
+    {
+        // a name the schema does not contain: try_set_key_field refuses and leaves the key alone, set_key_field panics (documented)
+        let mut probe = schema.clone();
+        c.count("schema_key_unknown_name_probes", 2);
+        match trap(|| probe.try_set_key_field("no such field").is_ok()) {
+            Ok(false) if probe.key_field_index == t.key => {}
+            Ok(_) => c.violate("schema-key-by-name|try-name|unknown-name-accepted-or-key-changed", "try_set_key_field with a name the schema does not contain returned Ok or changed the key field", json!({})),
+            Err(p) => c.violate("schema-key-by-name|try-name|unknown-name-panic", format!("try_set_key_field with an unknown name panicked: {}", p.msg), json!({})),
+        }
+        let mut probe2 = schema.clone();
+        if trap(|| {
+            probe2.set_key_field("no such field");
+        })
+        .is_ok()
+            && probe2.key_field_index != t.key
+        {
+            c.violate("schema-key-by-name|name|unknown-name-changed-key", "set_key_field with a name the schema does not contain returned and changed the key field", json!({}));
+        }
+    }
     let mut it = Interner::default();
     for s in &enc.used {
         it.map.insert(s.clone(), ());
@@ -1199,6 +1620,20 @@ fn check_table(c: &mut Case, t: &Table, m: &Meta, rng: &mut Rng, rs_lane: &mut R
         let proj: Vec<Vec<MV>> = eager_rs.records().iter().map(|r| project(r, &Src::Set(&eager_rs), &mut it)).collect();
         finish_path(c, "eager", true, proj, &mut results, &mut eager_proj);
     }
+    check_by_name(c, "eager", eager_rs.records(), &names, false);
+    // repeated field names (small tables): same values, by-name access yields a field of that name
+    if n <= 300 && t.fields.len() >= 2 {
+        let dnames = field_names(t, true);
+        if let Ok(dschema) = lib_schema(t, &dnames, "index") {
+            let r = trap(|| DbcParser::parse_bytes(&enc.bytes).and_then(|p| p.with_schema(dschema)).and_then(|p| p.parse_records()));
+            if let Some(rs) = stage(c, "eager-duplicate-names", "parse", "", r) {
+                let proj: Vec<Vec<MV>> = rs.records().iter().map(|r| project(r, &Src::Set(&rs), &mut it)).collect();
+                if cmp_model(c, "eager-duplicate-names", t, &proj) {
+                    check_by_name(c, "eager-duplicate-names", rs.records(), &dnames, true);
+                }
+            }
+        }
+    }
     // same record set, strings through the cached string block
     {
         let mut cached = eager_rs.clone();
@@ -1221,6 +1656,7 @@ fn check_table(c: &mut Case, t: &Table, m: &Meta, rng: &mut Rng, rs_lane: &mut R
         if let Some(recs) = stage(c, "lazy-iter", "record_iterator", "", r) {
             let proj: Vec<Vec<MV>> = recs.iter().map(|r| project(r, &Src::Block(lazy.string_block()), &mut it)).collect();
             finish_path(c, "lazy-iter", true, proj, &mut results, &mut eager_proj);
+            check_by_name(c, "lazy-iter", &recs, &names, false);
         }
         // the iterator driven through the rest of the Iterator interface (after C17-r6m2): a random program of next / nth /
         // skip / take / step_by / size_hint / count on one partially consumed iterator; the model is the position in the table
@@ -1372,8 +1808,71 @@ fn check_table(c: &mut Case, t: &Table, m: &Meta, rng: &mut Rng, rs_lane: &mut R
         if let Some(rs) = stage(c, "parallel", "parse_records_parallel", "", r) {
             let proj: Vec<Vec<MV>> = rs.records().iter().map(|r| project(r, &Src::Set(&rs), &mut it)).collect();
             finish_path(c, "parallel", true, proj, &mut results, &mut eager_proj);
+            check_by_name(c, "parallel", rs.records(), &names, false);
             par_rs = Some(rs);
         }
+    }
+
+    // ---- the string block on its own: StringBlock::parse at the offset the header gives, CachedStringBlock built from it;
+    //      every reference stored in the records resolved through both; is_string_start against the block's bytes
+    if t.fields.iter().any(|f| f.ty == Ty::Str) {
+        let sb_off = 20 + n * t.record_size();
+        let file_block = &enc.bytes[sb_off..sb_off + enc.sb_len];
+        let r = trap(|| StringBlock::parse(&mut Cursor::new(&enc.bytes[..]), sb_off as u64, enc.sb_len as u32));
+        if let Some(sb2) = stage(c, "standalone-block", "StringBlock::parse", "", r) {
+            c.count("standalone_string_blocks", 1);
+            if sb2.data() != file_block || sb2.size() != enc.sb_len {
+                c.violate("string-block-ne-file|standalone", "StringBlock::parse(reader, offset, size) did not return the file's string block", json!({}));
+            }
+            let proj: Vec<Vec<MV>> = eager_rs.records().iter().map(|r| project(r, &Src::Block(&sb2), &mut it)).collect();
+            finish_path(c, "standalone-block", true, proj, &mut results, &mut eager_proj);
+            match trap(|| CachedStringBlock::from_string_block(&sb2)) {
+                Ok(cb) => {
+                    let proj: Vec<Vec<MV>> = eager_rs.records().iter().map(|r| project(r, &Src::Cached(&cb), &mut it)).collect();
+                    finish_path(c, "standalone-cached", true, proj, &mut results, &mut eager_proj);
+                }
+                Err(p) => c.violate(format!("path-panic|standalone-cached|from_string_block|{}", p.sig()), format!("CachedStringBlock::from_string_block panicked: {}", p.msg), json!({})),
+            }
+            let mut offs: HashSet<u32> = HashSet::new();
+            fn walk(v: &Value, offs: &mut HashSet<u32>) {
+                match v {
+                    Value::StringRef(r) => {
+                        offs.insert(r.offset());
+                    }
+                    Value::Array(a) => a.iter().for_each(|x| walk(x, offs)),
+                    _ => {}
+                }
+            }
+            for r in eager_rs.records() {
+                r.values().iter().for_each(|v| walk(v, &mut offs));
+            }
+            offs.extend([0, enc.sb_len as u32, enc.sb_len as u32 + 1, u32::MAX, (enc.sb_len as u32).saturating_sub(1)]);
+            for o in offs {
+                c.count("is_string_start_checked", 1);
+                let want = (o as usize) < file_block.len() && (o == 0 || file_block[o as usize - 1] == 0);
+                if want {
+                    c.count("is_string_start_checked|true", 1);
+                }
+                if sb2.is_string_start(o) != want {
+                    c.violate(
+                        format!("is-string-start|want={want}"),
+                        format!("StringBlock::is_string_start({o}) = {} in a block of {} bytes (a string starts at 0 or behind a NUL)", !want, file_block.len()),
+                        json!({"offset": o, "block_len": file_block.len()}),
+                    );
+                    break;
+                }
+            }
+        }
+    }
+
+    // ---- schema-less access (every table up to 1000 records; a third of the large ones in the quick tier)
+    if n <= 1000 || !quick || lane3.below(3) == 0 {
+        check_raw(c, t, &enc, lane3, file);
+    }
+
+    // ---- the same table inside a WDB2 / WDB5 container
+    if n <= 1000 || !quick || lane3.below(3) == 0 {
+        check_container(c, t, m, &enc, tail, &schema, &keymap, &absent, lane3, file);
     }
 
     // ---- path 5: library writer, then parse what it wrote
@@ -1455,6 +1954,8 @@ fn fixed_tables() -> Vec<(Table, Meta)> {
         layout: "dedup",
         rewrite_src: "eager",
         explicit_writer_schema: false,
+        key_by: ["index", "name", "try-name"][n % 3],
+        container: CONTAINERS[0],
     };
     let mut v = Vec::new();
     // 0: the shape of the crate's own tests: (id, name, value) x 2
@@ -1489,6 +1990,10 @@ fn fixed_tables() -> Vec<(Table, Meta)> {
     ));
     // 6: an empty table with a full-width schema
     v.push((Table { fields: vec![sc(Ty::U32), sc(Ty::U8), ar(Ty::I16, 2), sc(Ty::Str)], key: Some(0), recs: vec![] }, meta(0, "first", "uint32")));
+    // containers by position: fixed table 0 sits in a basic WDB2 header, 1 in an extended one, 2 with index arrays, 3 in WDB5, ...
+    for (i, (_, m)) in v.iter_mut().enumerate() {
+        m.container = CONTAINERS[i % 4];
+    }
     v
 }
 
@@ -1522,8 +2027,9 @@ fn main() {
         let class = if idx < nfixed { format!("fixed{idx}|{}", meta.class(&t)) } else { meta.class(&t) };
         let file = scratch.join(format!("c17-{idx}.dbc"));
         let mut rs_lane = run.rng(idx, 1);
+        let mut lane3 = run.rng(idx, 2);
         run.case(idx, &class, desc, |c| {
-            check_table(c, &t, &meta, &mut rng, &mut rs_lane, &file);
+            check_table(c, &t, &meta, &mut rng, &mut rs_lane, &mut lane3, !thorough, &file);
             let _ = std::fs::remove_file(&file);
         });
     }
